@@ -1,4 +1,5 @@
 import QuiverModel.Lemmas.VM.Sound
+import QuiverModel.Lemmas.VM.Rename
 /-
 C07 — every function the compiler emits is well-formed bytecode.
 
@@ -224,6 +225,72 @@ theorem result_present {P : Prog} {A : Array Anns} {s0 : Nat} (hA : AllChecked P
   cases hst : p.stack with
   | nil => have := this.2 hres; simp [hst] at this
   | cons v s => exact ⟨v, by simp [finish, hres, hst]⟩
+
+/-- **`renaming_preserves_check`**: certification is invariant under consistent index renaming —
+a function that passes `checkAnn` in `P` passes, with the *same* annotations, at its new index in
+any program that contains `P` under the renaming (the tree-shaken and the merged packagings, when
+their remap tables are consistent). -/
+theorem renaming_preserves_check {ρ : Renaming} {P P' : Prog} (h : Renames ρ P P') {f : Nat} {anns : Anns}
+    (hc : checkAnn P f anns = true) : checkAnn P' (ρ.func f) anns = true := by
+  unfold checkAnn at hc ⊢
+  split at hc
+  · cases hc
+  · rename_i fn hfn
+    obtain ⟨fn', hfn', hcap, hins⟩ := h.func f fn hfn
+    rw [hfn']
+    have hC := checkFn_spec hc
+    have hsize : fn'.instructions.size = fn.instructions.size := by rw [hins]; simp
+    unfold checkFn
+    simp only [Bool.and_eq_true, beq_iff_eq, decide_eq_true_eq, List.all_eq_true, List.mem_range]
+    refine ⟨⟨⟨by rw [hsize]; exact hC.size, by rw [hsize]; exact hC.small⟩,
+      by rw [hsize, hcap]; exact hC.entry⟩, ?_⟩
+    intro pc hpc
+    rw [hsize] at hpc
+    unfold checkPc
+    cases ha : anns[pc]? with
+    | none => rfl
+    | some oa =>
+      cases oa with
+      | none => simp
+      | some a =>
+        have hi : fn.instructions[pc]? = some fn.instructions[pc] := by simp [hpc]
+        have hi' : fn'.instructions[pc]? = some (ρ.instr fn.instructions[pc]) := by
+          rw [hins]; simp [hpc]
+        obtain ⟨succs, htr, hflow⟩ := hC.local_ pc a _ ha hi
+        rw [hi']
+        simp only
+        rw [hsize, hcap, transfer_rename h htr]
+        simp only [List.all_eq_true]
+        exact hflow
+
+
+/-- Example of `Renames`: the example program embedded at shifted indices (one constant, one
+tuple, one function prepended — what merging behind another program does). -/
+example : Renames ⟨(· + 1), (· + 1), (· + 1), (· + 1), (· + 1)⟩
+    { constants := #[.int 0], functions := #[{ instructions := #[.constant 0, .tuple 1, .pop], captures := 0, typeId := 0 }],
+      tuples := #[0, 1], types := 1, builtins := 0 }
+    { constants := #[.int 9, .int 0],
+      functions := #[{ instructions := #[], captures := 0, typeId := 0 },
+                     { instructions := #[.constant 1, .tuple 2, .pop], captures := 0, typeId := 0 }],
+      tuples := #[5, 0, 1], types := 2, builtins := 1 } where
+  const := by intro i hi; simp at hi ⊢; omega
+  tuple := by
+    intro id a h
+    have : id = 0 ∨ id = 1 := by
+      have := (Array.getElem?_eq_some_iff.mp h).1
+      simp at this; omega
+    rcases this with rfl | rfl <;> (simp at h; subst h; rfl)
+  type := by intro id hi; simp at hi ⊢; omega
+  func := by
+    intro i fn h
+    have : i = 0 := by
+      have := (Array.getElem?_eq_some_iff.mp h).1
+      simp at this; omega
+    subst this
+    simp at h
+    subst h
+    exact ⟨_, rfl, rfl, by simp [Renaming.instr]⟩
+  builtin := by intro i hi; simp at hi
 
 /-! ### Examples: the hypotheses are satisfiable by concrete, non-trivial objects -/
 
